@@ -55,10 +55,9 @@ def gen(seed: int, tier: str) -> dict[str, Any]:
         else:
             v = rng.choice([1, 1, 1, 0])
         tg = {"t": round(t, 6), "v": v, "g": g if i else "first"}
-        if kind == "bs_reset" and i and v == 1 and tgs[-1]["v"] == 1 and g in ("tiny", "half", "near-") and rng.random() < 0.6:
-            # a repeated 'on' arriving as GroupValueResponse (answer to someone's read) while the sensor is on restarts
-            # the timer like any 'on' telegram.  (A response 'on' after an automatic reset does not switch the sensor
-            # on again in xknx - outside the statement, recorded as observation in DESIGN.md, not generated here.)
+        if kind == "bs_reset" and v == 1 and rng.random() < 0.3:
+            # an 'on' arriving as GroupValueResponse (answer to someone's read) is an 'on' telegram like any other: it
+            # restarts a running timer, and after an automatic reset it switches the sensor on again
             tg["apci"] = "response"
         tgs.append(tg)
     readd = []
